@@ -95,6 +95,9 @@ def run(res, tier, seed, replay):
     for _ in range(40 if quick else 400):
         ks = sorted(rng.sample(range(30), rng.randint(2, 5)))
         cases.append(("ban=" + "+".join(map(str, ks)), base, ks))
+        # the same set given as one option call per kind, in both orders: the ban set is the union of the calls
+        cases.append(("split,ban=" + "+".join(map(str, ks)), base, ks))
+        cases.append(("split,ban=" + "+".join(map(str, reversed(ks))), base, ks))
     lines = [P.run_line(o + ",out=sha", pj) for o, pj, _ in cases]
     outs = C.run_sharded("harness", "fn", lines)
     ref = P.parse(C.run_lines("harness", "fn", [P.run_line("out=sha", base)])[0])
